@@ -83,6 +83,11 @@ func runC11(c *Ctx, r *Report, tier string) {
 	seen := map[string]int{}
 	bits := "invoke:Type.Bits(call:(reflect.Value).Type(P1); )"
 	base := "call:getBase(P2, 10)#0"
+	oneArgBase := false
+	if gb := c.Fn("getBase"); gb != nil && len(gb.Params) == 1 {
+		// the always-decimal default folded into getBase itself
+		base, oneArgBase = "call:getBase(P2)#0", true
+	}
 	for _, in := range c.instrs(cv, c.isCallTo("strconv.ParseInt", "strconv.ParseUint", "strconv.ParseFloat", "strconv.ParseBool")) {
 		call := in.(*ssa.Call)
 		name := c.calleeName(call.Common())
@@ -116,7 +121,7 @@ func runC11(c *Ctx, r *Report, tier string) {
 			for _, o := range c.originsOf(ret.Results[0], ret) {
 				seen = append(seen, trunc(o.Term, 70))
 				switch {
-				case o.Term == "P1":
+				case o.Term == "P1", oneArgBase && o.Term == "10":
 				case strings.HasPrefix(o.Term, `conv[int](call:strconv.ParseInt(call:(*multiTag).Get(`) && strings.HasSuffix(o.Term, `, "base"), 10, 32)#0)`):
 					// selected by nothing but `the tag is present`
 					for _, d := range c.controlDeps(gb, o.At.Block()) {
@@ -158,6 +163,15 @@ func runC11(c *Ctx, r *Report, tier string) {
 	}
 
 	// EXACT-STORE
+	// every typed store of text goes through convert: no other function of the package writes a value by kind
+	// (a direct SetString elsewhere bypasses the Unmarshaler test and the type's own rules)
+	isKindSet := c.isCallTo("(reflect.Value).SetInt", "(reflect.Value).SetUint", "(reflect.Value).SetFloat", "(reflect.Value).SetString", "(reflect.Value).SetBool", "(reflect.Value).SetMapIndex", "(reflect.Value).SetComplex", "(reflect.Value).SetBytes")
+	c.eachInstr(func(fn *ssa.Function, in ssa.Instruction) {
+		if !isKindSet(in) || c.actsFor(fn, cv) {
+			return
+		}
+		r.Fail("EXACT-STORE", c.fname(fn), "kind-specific store outside convert", c.ipos(in), c.calleeName(in.(ssa.CallInstruction).Common())+" in "+c.fname(fn)+": a value is written without going through convert (Unmarshaler precedence, base, range and the type's own parsing are skipped)")
+	})
 	wantStore := map[string]string{
 		"(reflect.Value).SetInt":    "call:strconv.ParseInt(P0, " + base + ", " + bits + ")#0",
 		"(reflect.Value).SetUint":   "call:strconv.ParseUint(P0, " + base + ", " + bits + ")#0",
@@ -522,6 +536,22 @@ func (c *Ctx) ruleMapSplit(r *Report, rule string, cv *ssa.Function) {
 		}
 	}
 	r.Check(okV && hasA, rule, cn, "map value is the text after the first ':'", c.ipos(valCall), "value ∈ {after(val, \":\"), \"\"}", "map value is "+trunc(c.term(valCall.Call.Args[0]), 120)+": a value containing ':' is truncated or dropped")
+	// the value is converted for every entry, with or without a colon (a bare key gives the value type's reading of
+	// "", an error for numbers): the conversion depends on nothing but the key's conversion having succeeded
+	{
+		inK := map[string]bool{}
+		for _, l := range c.depsOf(cv, keyCall) {
+			inK[l.String()] = true
+		}
+		var extra []string
+		for _, l := range c.depsOf(cv, valCall) {
+			if inK[l.String()] || (!l.Pos && strings.HasPrefix(l.Term, "nonnil(call:convert(")) {
+				continue
+			}
+			extra = append(extra, trunc(l.String(), 70))
+		}
+		r.Check(len(extra) == 0, rule, cn, "the map value is converted for every entry", c.ipos(valCall), "no guard beyond the key conversion's success", "the value conversion also depends on "+strings.Join(extra, "; ")+": an entry without it keeps the zero value instead of being converted (or rejected)")
+	}
 	// the after-part is taken only when a colon is present
 	if p, ok := c.resolve(valCall.Call.Args[0]).(*ssa.Phi); ok {
 		for i, e := range p.Edges {
